@@ -113,3 +113,37 @@ Fixpoint derived_obs (s : al) (sels : list (list key)) : list (list key * al) :=
 
 Definition reportb (sels : list (list key)) (rep : al) : bool :=
   forallb (fun k => Nat.eqb (get rep k) (sel_count sels k)) (map fst rep ++ concat sels).
+
+(* ---- the constants of prior_combinations_sample as parameters (read from the source on every run by
+   tools/translate_c07.py): sort direction, offset added to the cap in the slice, increment per selection, count given
+   to a combination seen for the first time.  [pstep false 0 1 0] is [step] (SamplerProofs.pstep_default). ---- *)
+Fixpoint insert_by_desc (f : key -> nat) (k : key) (l : list key) : list key :=
+  match l with
+  | [] => [k]
+  | h :: t => if Nat.leb (f h) (f k) then k :: l else h :: insert_by_desc f k t
+  end.
+Definition sort_by_desc (f : key -> nat) (l : list key) : list key := fold_right (insert_by_desc f) [] l.
+
+Fixpoint incr_by (n : nat) (s : al) (k : key) : al :=
+  match s with
+  | [] => [(k, n)]
+  | (k', c) :: r => if Nat.eqb k k' then (k', n + c) :: r else (k', c) :: incr_by n r k
+  end.
+
+Definition add_missing_with (i : nat) (s : al) (L : list key) : al :=
+  fold_left (fun s k => if mem s k then s else s ++ [(k, i)]) L s.
+
+Definition pstep (rev : bool) (off : Z) (inc init : nat) (s : al) (L : list key) (cap : Z) : list key * al :=
+  match L with
+  | [] => ([], s)
+  | _ => let s1 := add_missing_with init s L in
+         let sorted := if rev then sort_by_desc (get s1) L else sort_by (get s1) L in
+         let sel := firstn (slice_len (length L) (cap + off)) sorted in
+         (sel, fold_left (incr_by inc) sel s1)
+  end.
+
+Fixpoint prun (rev : bool) (off : Z) (inc init : nat) (s : al) (ops : list op) : list (list key * al) :=
+  match ops with
+  | [] => []
+  | (L, cap) :: r => let '(sel, s') := pstep rev off inc init s L cap in (sel, s') :: prun rev off inc init s' r
+  end.
